@@ -2425,6 +2425,263 @@ def r7_outputs_located_per_node(ctx, rid):
                                 f"(unrecognised form)")
 
 
+
+# --------------------------------------------------------------------------------------------
+# R8 — a per-node override is written into a copy that shares nothing on the write path
+# --------------------------------------------------------------------------------------------
+
+def _field_origins(eff, g: FunctionInfo, path, rid, depth=0):
+    """Origins (in terms of g's parameters) of the object `self<path>` after the constructor g has run: what was assigned to the
+    attribute / stored into it as elements, including what base-class constructors called through super() do."""
+    from engine.effects import analyse, steps
+    an = analyse(eff, g, None)
+    attr = path[0][1:]
+    top, elems, found = set(), set(), False
+
+    def is_attr(e):
+        return isinstance(e, ast.Attribute) and e.attr == attr and isinstance(e.value, ast.Name) and e.value.id == g.self_name
+    for n in walk_shallow(g.node):
+        if isinstance(n, (ast.Assign, ast.AnnAssign)) and n.value is not None:
+            for t in (n.targets if isinstance(n, ast.Assign) else [n.target]):
+                if is_attr(t):
+                    found = True
+                    o = an.origins(n.value)
+                    top |= set(o)
+                    elems |= set(steps(o, "[*]"))
+                elif isinstance(t, ast.Subscript) and is_attr(t.value):
+                    found = True
+                    elems |= set(an.origins(n.value))
+        elif isinstance(n, ast.Call) and isinstance(n.func, ast.Attribute) and is_attr(n.func.value):
+            if n.func.attr == "update" and n.args:
+                found = True
+                elems |= set(steps(an.origins(n.args[0]), "[*]"))
+            elif n.func.attr in ("setdefault", "__setitem__") and len(n.args) == 2:
+                found = True
+                elems |= set(an.origins(n.args[1]))
+            elif n.func.attr in ("append", "add") and n.args:
+                found = True
+                elems |= set(an.origins(n.args[0]))
+            elif n.func.attr == "extend" and n.args:
+                found = True
+                elems |= set(steps(an.origins(n.args[0]), "[*]"))
+        elif isinstance(n, ast.Call) and isinstance(n.func, ast.Attribute) and n.func.attr == "__init__" and isinstance(n.func.value, ast.Call) \
+                and call_name(n.func.value) == "super" and depth < 3:
+            for b in eff.cg.resolve_call(g, n)[0]:
+                try:
+                    sub = _field_origins(eff, b, path[:1] + (("[*]",) if len(path) > 1 else ()), rid, depth + 1)
+                except AnalysisError:
+                    continue
+                binding = an._bind(n, b)
+                mapped = set()
+                for o in sub:
+                    mapped |= an._subst(o, binding)
+                found = True
+                if len(path) > 1:
+                    elems |= mapped
+                else:
+                    top |= mapped
+    if not found:
+        raise AnalysisError(f"{rid}: {g.qualname} never binds `self.{attr}` (cannot tell what the new object's {attr} holds)")
+    cur = top if len(path) == 1 else elems
+    for s in path[2:]:
+        cur = set(steps(cur, s))
+    return cur
+
+
+def r8_override_written_into_unshared_copy(ctx, rid):
+    """CircuitTemplate.update_var (the write that grid_search -> adapt_circuit performs per grid row) puts the value of ONE node
+    into that node's template.  Node templates are shared objects (every node built from one template, every grid copy made by
+    deepcopy keeps the sharing), so the object the value is written into must share no container on the callee's write path with the
+    template other nodes still use: a deep copy, or a derived object whose constructor stores fresh containers there."""
+    from engine.effects import analyse, fmt_origin, DEEP_COPIERS
+    eff = ctx.effects
+    f = ctx.repo.get_func(CIRC, "CircuitTemplate.update_var")
+    an = analyse(eff, f, None)
+    rd = ctx.rd(f)
+    n_sites = 0
+    for call in sorted([c for c in walk_shallow(f.node) if isinstance(c, ast.Call) and isinstance(c.func, ast.Attribute)],
+                       key=lambda c: (c.lineno, c.col_offset)):
+        recv = call.func.value
+        if isinstance(recv, ast.Name) and recv.id == f.self_name:
+            continue
+        targets, how = ctx.cg.resolve_call(f, call)
+        if not targets:
+            continue
+        if how == "by-name":
+            # the receiver's class follows from how it was made: `x.m()` whose m returns `self.__class__(...)`, a copy of a typed value
+            ks = _made_classes(ctx, f, recv, 0)
+            if not ks:
+                continue
+            fam = set()
+            for k in ks:
+                fam |= set(k.mro) | set(ctx.repo.subclasses(k))
+            targets = [t for t in targets if t.cls in fam]
+            if not targets:
+                continue
+        paths = sorted({p for t in targets for (prm, p) in eff.mutates(t, None) if prm == t.self_name and len(p) >= 1})
+        if not paths or not any(len(p) >= 2 for p in paths):
+            continue                                      # the callee only re-binds attributes of its receiver
+        n_sites += 1
+        label = f"per-node override is written into an unshared copy [{norm(call, 80)}]"
+        facts = {"write_path": ["self" + "".join(p) for p in paths], "callee": sorted(t.qualname for t in targets)}
+        orig = an.origins(recv)
+        shared = [o for o in orig if o[0] in ("P", "G", "C")]
+        if shared:
+            ctx.violation(rid, f, call, f"`{norm(call)}` writes through {facts['write_path']} of an object that is "
+                          f"{sorted(fmt_origin(o) for o in shared)} - {'a shallow copy of ' if all(o[0] == 'C' for o in shared) else ''}a template "
+                          f"other nodes still use: the override of one node reaches its siblings (and, in a sweep, the rows that share the template)",
+                          facts, label=label)
+            continue
+        if not orig or any(o[0] == "U" for o in orig):
+            raise AnalysisError(f"{rid}: cannot tell where the receiver of `{norm(call)}` comes from")
+        # fresh: but how deep?  follow the receiver to the expression that made it
+        e0 = recv
+        for _ in range(6):
+            if isinstance(e0, ast.Name):
+                defs = rd.defs_reaching(e0)
+                vals = [assigned_value(d, e0.id) for d in defs if not isinstance(d, ast.arguments)]
+                if len(defs) != 1 or len(vals) != 1 or vals[0] is None:
+                    raise AnalysisError(f"{rid}: the receiver `{norm(recv)}` of `{norm(call)}` has several / unrecognised definitions")
+                e0 = vals[0]
+            else:
+                break
+        ctx.require(isinstance(e0, ast.Call), f"{rid}: the receiver of `{norm(call)}` is made by `{norm(e0)}` (unrecognised form)")
+        family = set()
+        for t in targets:
+            if t.cls is not None:
+                family |= {t.cls} | set(ctx.repo.subclasses(t.cls))
+        verdicts = _copy_depth(ctx, eff, rid, f, an, e0, paths, family, 0)
+        bad = [v for v in verdicts if v[0] == "shared"]
+        facts["made_by"] = norm(e0)
+        if bad:
+            why = "; ".join(sorted({v[1] for v in bad}))
+            ctx.violation(rid, f, call, f"`{norm(call)}` writes through {facts['write_path']} of the object made by `{norm(e0)}`, which is a new "
+                          f"object but not a private one: {why}.  The value written for one node lands in the template its sibling nodes (and the "
+                          f"other rows of a sweep that share it) still use", facts, label=label)
+        else:
+            ctx.ok(rid, f, call, "the template that receives the node's value shares no container on the write path with the template it was "
+                                 "made from (" + "; ".join(sorted({v[1] for v in verdicts})) + ")", facts, label=label)
+    ctx.require(n_sites >= 1, f"{rid}: CircuitTemplate.update_var no longer calls a method that writes into a node template (anchor vanished)")
+
+
+def _made_classes(ctx, f, e, depth):
+    """Repository classes of the object expression `e` of f evaluates to, read off the way it was made."""
+    if depth > 5 or e is None:
+        return set()
+    try:
+        ks = set(ctx.cg.expr_classes(f, e))
+    except Exception:
+        ks = set()
+    if ks:
+        return ks
+    if isinstance(e, ast.Name):
+        out = set()
+        for d in ctx.rd(f).defs_reaching(e):
+            v = None if isinstance(d, ast.arguments) else assigned_value(d, e.id)
+            if v is not None:
+                out |= _made_classes(ctx, f, v, depth + 1)
+        return out
+    if isinstance(e, ast.Call):
+        if call_name(e) in ("deepcopy", "copy") and e.args:
+            return _made_classes(ctx, f, e.args[0], depth + 1)
+        if isinstance(e.func, ast.Attribute) and e.func.attr == "copy" and not e.args:
+            return _made_classes(ctx, f, e.func.value, depth + 1)
+        targets, how = ctx.cg.resolve_call(f, e)
+        out = set()
+        if how != "by-name":
+            for m in targets:
+                if m.name == "__init__" and m.cls is not None:
+                    out.add(m.cls)
+                    continue
+                for r in walk_shallow(m.node):
+                    if isinstance(r, ast.Return) and isinstance(r.value, ast.Call):
+                        fn = r.value.func
+                        if m.cls is not None and ((isinstance(fn, ast.Attribute) and fn.attr == "__class__" and isinstance(fn.value, ast.Name)
+                                                   and fn.value.id == m.self_name)
+                                                  or (isinstance(fn, ast.Call) and isinstance(fn.func, ast.Name) and fn.func.id == "type")):
+                            out.add(m.cls)
+                        else:
+                            k = ctx.repo.resolve_expr(m.module, fn) if isinstance(fn, (ast.Name, ast.Attribute)) else None
+                            if k is not None and hasattr(k, "mro"):
+                                out.add(k)
+        return out
+    return set()
+
+
+def _ctor_classes(ctx, f, fn, family):
+    """classes constructed by calling `fn` (`K`, `self.__class__`, `type(x)`): the named class, else the family of the write path"""
+    r = ctx.repo.resolve_expr(f.module, fn) if isinstance(fn, (ast.Name, ast.Attribute)) else None
+    if r is not None and hasattr(r, "mro"):
+        return [r]
+    is_dyn = (isinstance(fn, ast.Attribute) and fn.attr == "__class__") or (isinstance(fn, ast.Call) and isinstance(fn.func, ast.Name) and fn.func.id == "type")
+    if is_dyn:
+        base = fn.value if isinstance(fn, ast.Attribute) else (fn.args[0] if fn.args else None)
+        if isinstance(base, ast.Name) and f.cls is not None and base.id == f.self_name:
+            return sorted({f.cls} | set(ctx.repo.subclasses(f.cls)), key=lambda k: k.qual)
+        return sorted(family, key=lambda k: k.qual)
+    return None
+
+
+def _copy_depth(ctx, eff, rid, f, an, e: ast.Call, paths, family, depth):
+    """[(kind, text)]: kind 'deep' / 'fresh' (nothing on the write path is shared) or 'shared' (with the reason) for the object the call
+    expression e of function f evaluates to."""
+    from engine.effects import analyse, fmt_origin, DEEP_COPIERS
+    if depth > 3:
+        raise AnalysisError(f"{rid}: copy derivation too deep at `{norm(e)}`")
+    name = call_name(e)
+    if name in DEEP_COPIERS and (ctx.repo.external_name(f.module, e.func) or "").startswith("copy."):
+        return [("deep", f"`{norm(e, 60)}` is a deep copy")]
+    classes = _ctor_classes(ctx, f, e.func, family)
+    if classes is not None:
+        out = []
+        for k in classes:
+            g = ctx.repo.lookup_method(k, "__init__")
+            if g is None:
+                raise AnalysisError(f"{rid}: class {k.name} constructed by `{norm(e)}` has no analysable __init__")
+            binding = an._bind(e, g)
+            for p in paths:
+                for o in _field_origins(eff, g, p, rid):
+                    for x in an._subst(o, binding):
+                        where = f"{k.name}{''.join(p)}"
+                        if x[0] in ("P", "G"):
+                            out.append(("shared", f"{g.qualname} stores {fmt_origin(x)} of {f.qualname} as `{where}` without copying it"))
+                        elif x[0] == "U":
+                            raise AnalysisError(f"{rid}: cannot tell what {g.qualname} stores as `{where}` (from `{norm(e)}`)")
+                        else:
+                            out.append(("fresh", f"`{where}` is a fresh container"))
+        return out
+    targets, how = ctx.cg.resolve_call(f, e)
+    if not targets or how == "by-name" and len(targets) > 1:
+        if isinstance(e.func, ast.Attribute) and e.func.attr == "copy" or name == "copy":
+            return [("shared", f"`{norm(e, 60)}` is a shallow copy: the containers inside it are the original's")]
+        raise AnalysisError(f"{rid}: cannot resolve `{norm(e)}`, which makes the object the node's value is written into")
+    out = []
+    for m in targets:
+        am = analyse(eff, m, None)
+        rets = [r for r in walk_shallow(m.node) if isinstance(r, ast.Return) and r.value is not None]
+        if not rets:
+            raise AnalysisError(f"{rid}: {m.qualname} (called as `{norm(e)}`) returns nothing")
+        for r in rets:
+            v = r.value
+            for _ in range(4):
+                if isinstance(v, ast.Name):
+                    ds = am.rd.defs_reaching(v)
+                    vs = [assigned_value(d, v.id) for d in ds if not isinstance(d, ast.arguments)]
+                    if len(ds) == 1 and len(vs) == 1 and vs[0] is not None:
+                        v = vs[0]
+                        continue
+                break
+            if isinstance(v, ast.Name) and m.self_name is not None and v.id == m.self_name:
+                out.append(("shared", f"{m.qualname} returns its receiver itself"))
+                continue
+            if not isinstance(v, ast.Call):
+                raise AnalysisError(f"{rid}: {m.qualname} (called as `{norm(e)}`) returns `{norm(v)}` (unrecognised form)")
+            sub = _copy_depth(ctx, eff, rid, m, am, v, paths, family, depth + 1)
+            # express "shared with a parameter of m" in words: the receiver of the call is the template other nodes use
+            out += sub
+    return out
+
+
 RULES = [
     ("C17-R1", r1_private_copy_uncoupled, 5),
     ("C17-R2", r2_one_key_per_row, 4),
@@ -2433,4 +2690,5 @@ RULES = [
     ("C17-R5", r5_linearize_grid, 4),
     ("C17-R6", r6_edge_update_selects_one_edge, 1),
     ("C17-R7", r7_outputs_located_per_node, 2),
+    ("C17-R8", r8_override_written_into_unshared_copy, 1),
 ]
